@@ -25,6 +25,7 @@ VIEW_FUNCS = {"asarray", "asanyarray", "ascontiguousarray", "asfortranarray", "a
               "squeeze", "transpose", "swapaxes", "moveaxis", "rollaxis", "broadcast_to", "broadcast_arrays", "expand_dims", "frombuffer",
               "flipud", "fliplr", "flip", "diagonal", "real", "imag", "split", "array_split", "hsplit", "vsplit", "dsplit", "nditer",
               "as_strided", "sliding_window_view", "require", "array", "rot90", "tril", "triu", "view", "nan_to_num", "meshgrid"}
+_VARIADIC_VIEW_FUNCS = {"atleast_1d", "atleast_2d", "atleast_3d", "broadcast_arrays", "meshgrid", "nditer", "ix_"}
 # methods that hand back (a view of / an element of) their receiver
 VIEW_METHODS = {"view", "reshape", "ravel", "squeeze", "transpose", "swapaxes", "get", "items", "values", "keys", "pop", "setdefault",
                 "popitem", "__getitem__", "__iter__", "__enter__", "newbyteorder", "diagonal", "getfield"}
@@ -80,27 +81,26 @@ NP_FRESH = {
     "copy", "concatenate", "stack", "hstack", "vstack", "dstack", "column_stack", "append", "insert", "delete", "repeat", "tile", "where",
     "nonzero", "flatnonzero", "argwhere", "unique", "sort", "argsort", "searchsorted", "isin", "in1d", "intersect1d", "union1d", "setdiff1d",
     "sum", "prod", "mean", "std", "var", "min", "max", "amin", "amax", "nanmin", "nanmax", "nanmean", "nansum", "argmin", "argmax", "ptp",
-    "any", "all", "count_nonzero", "cumsum", "cumprod", "diff", "dot", "matmul", "cross", "outer", "inner", "tensordot", "trace", "abs",
+    "any", "all", "count_nonzero", "cumsum", "cumprod", "dot", "matmul", "cross", "outer", "inner", "tensordot", "trace", "abs",
     "absolute", "sqrt", "square", "exp", "log", "log2", "log10", "sin", "cos", "tan", "arcsin", "arccos", "arctan", "arctan2", "deg2rad",
     "rad2deg", "floor", "ceil", "rint", "round", "around", "sign", "negative", "add", "subtract", "multiply", "divide", "true_divide",
     "floor_divide", "power", "mod", "remainder", "maximum", "minimum", "fmax", "fmin", "hypot", "clip", "isnan", "isfinite", "isinf",
     "isclose", "allclose", "array_equal", "equal", "not_equal", "greater", "less", "greater_equal", "less_equal", "logical_and",
     "logical_or", "logical_not", "logical_xor", "bitwise_and", "bitwise_or", "bitwise_xor", "invert", "left_shift", "right_shift",
     "iinfo", "finfo", "dtype", "issubdtype", "can_cast", "result_type", "promote_types", "shape", "ndim", "size", "cumulative_sum",
-    "bincount", "histogram", "digitize", "interp", "take", "take_along_axis", "choose", "compress", "select", "packbits", "unpackbits",
+    "bincount", "interp", "take", "take_along_axis", "choose", "compress", "select", "packbits", "unpackbits",
     "fromiter", "fromstring", "char.add", "char.strip", "char.upper", "char.lower", "linalg.norm", "linalg.det", "linalg.inv",
     "linalg.svd", "linalg.eig", "linalg.eigh", "linalg.solve", "linalg.lstsq", "linalg.pinv", "linalg.matrix_rank", "quantile",
-    "percentile", "median", "average", "lexsort", "indices", "triu_indices", "tril_indices", "diag_indices", "ix_", "sign", "float32",
-    "float64", "int8", "int16", "int32", "int64", "uint8", "uint16", "uint32", "uint64", "bool_", "str_", "pad", "roll", "kron", "array_str",
+    "percentile", "median", "average", "lexsort", "indices", "triu_indices", "tril_indices", "diag_indices", "sign", "pad", "roll", "kron", "array_str",
     "array_repr", "tobytes", "random.rand", "random.random", "random.randint", "random.choice", "random.permutation", "random.default_rng",
     "isscalar", "iterable", "lcm", "gcd", "convolve", "correlate", "vectorize", "frompyfunc", "char.array", "core.defchararray.add",
     "loadtxt", "genfromtxt", "load", "datetime64", "timedelta64", "errstate", "printoptions", "testing.assert_allclose", "where",
 }
-BUILTIN_FRESH = {"len", "int", "float", "bool", "str", "bytes", "bytearray", "repr", "ord", "chr", "hash", "abs", "round", "sum", "any", "all",
-                 "isinstance", "issubclass", "hasattr", "callable", "range", "format", "divmod", "pow", "id", "type", "print", "slice",
+BUILTIN_FRESH = {"len", "int", "float", "bool", "str", "bytes", "bytearray", "repr", "ord", "chr", "hash", "abs", "round", "any", "all",
+                 "isinstance", "issubclass", "hasattr", "callable", "range", "format", "divmod", "pow", "id", "type", "print",
                  "open", "input", "bin", "hex", "oct", "ascii", "complex", "object", "super", "memoryview_"}
 # builtins that build a new container of their argument's items
-BUILTIN_COLLECT = {"list", "tuple", "dict", "sorted", "set", "frozenset", "reversed", "zip", "enumerate", "map", "filter", "iter"}
+BUILTIN_COLLECT = {"list", "tuple", "dict", "sorted", "set", "frozenset", "reversed", "zip", "enumerate", "map", "filter", "iter", "slice"}
 _BUILTIN_NAMES = set(dir(__import__("builtins")))
 DOTTED_FRESH_PREFIXES = ("math.", "os.", "re.", "struct.", "json.", "warnings.", "logging.", "time.", "datetime.", "shutil.", "sys.", "string.",
                          "textwrap.", "hashlib.", "base64.", "subprocess.", "tempfile.", "glob.", "numbers.", "msgpack.", "io.", "requests.",
@@ -115,9 +115,37 @@ FRESH_METHODS = {"tolist", "sum", "mean", "min", "max", "any", "all", "nonzero",
                  "__hash__", "__str__", "__repr__", "__contains__", "__bool__", "__int__", "__float__", "extends", "total_seconds", "hexdigest",
                  "strftime", "read", "readline", "readlines", "write", "group", "groups", "span", "match", "search", "fullmatch", "findall",
                  "sub", "as_integer_ratio", "isoformat", "array_length", "stack_depth", "get_atom_count", "get_bond_count", "get_symbols",
-                 "get_alphabet", "get_annotation_categories", "score_matrix", "shape_3d"}
+                 "get_alphabet", "get_annotation_categories", "score_matrix", "shape_3d",
+                 # RDKit: getters that hand back a number, a string or a new array / dict (GetAtoms, GetBonds, GetConformers, GetNeighbors,
+                 # GetPDBResidueInfo, GetMol are NOT here: they hand back parts of the molecule)
+                 "GetAltLoc", "GetBeginAtomIdx", "GetEndAtomIdx", "GetBondType", "GetChainId", "GetFormalCharge", "GetIdx", "GetInsertionCode",
+                 "GetIsHeteroAtom", "GetName", "GetNumAtoms", "GetNumHeavyAtoms", "GetNumConformers", "GetOccupancy", "GetPositions", "GetProp",
+                 "GetPropsAsDict", "GetResidueName", "GetResidueNumber", "GetSymbol", "GetTempFactor", "Is3D", "HasProp", "GetAtomicNum"}
 
 
+# methods that give a new object which may be (one of) the ITEMS its receiver holds (an object array, a list of arrays)
+_REDUCING_METHODS = {"tolist", "item", "sum", "min", "max", "prod", "flatten", "repeat", "round", "cumsum", "cumprod", "dot", "trace", "ptp", "mean"}
+# names under which modules / functions are imported anywhere in the analysed sources (core.Source registers them):
+# `from m import f as g` -> IMPORT_ALIASES["g"] = "f";  `import m as k` / `import m` -> MODULE_ALIASES has "k" / "m"
+IMPORT_ALIASES = {}
+MODULE_ALIASES = set()
+
+
+def register_imports(tree):
+    for n in ast.walk(tree):
+        if isinstance(n, ast.ImportFrom):
+            for a in n.names:
+                if a.asname and a.asname != a.name:
+                    IMPORT_ALIASES[a.asname] = a.name
+        elif isinstance(n, ast.Import):
+            for a in n.names:
+                nm = (a.asname or a.name).split(".")[0]
+                if nm not in ("np", "numpy"):
+                    MODULE_ALIASES.add(nm)
+
+
+_NP_OBJECT_MAKERS = {"array", "full", "full_like", "repeat", "tile", "concatenate", "stack", "hstack", "vstack", "append", "insert", "fromiter",
+                     "where", "take", "choose", "select", "empty", "empty_like"}
 _RETURNS = None
 
 
@@ -157,6 +185,8 @@ def call_kind(c, local_callables=()):
             return "fresh"
         if nm in _BUILTIN_NAMES:
             return "any"                  # max(x, y), min, next, getattr, vars, ...
+        if nm in IMPORT_ALIASES and IMPORT_ALIASES[nm] not in repository_returns():
+            return "any"                  # a function imported under another name, of which nothing is known
         return "fresh"
     tail = _np_tail(fn)
     if tail is not None:
@@ -165,6 +195,8 @@ def call_kind(c, local_callables=()):
             cp = [k.value for k in c.keywords if k.arg == "copy"]
             return "fresh" if not star_kw and (not cp or not _could_be_false(cp[0])) else "first"
         if any(k.arg == "out" for k in c.keywords) or star_kw:
+            return "any"
+        if last in _VARIADIC_VIEW_FUNCS:
             return "any"
         if last in VIEW_FUNCS:
             return "first"
@@ -175,6 +207,8 @@ def call_kind(c, local_callables=()):
     while isinstance(root, ast.Attribute):
         root = root.value
     dotted_mod = isinstance(root, ast.Name) and not isinstance(base, ast.Name) or isinstance(base, ast.Name) and fn.startswith(DOTTED_FRESH_PREFIXES)
+    if fn in ("math.prod", "functools.reduce", "math.fsum"):
+        return "any"
     if fn.startswith(DOTTED_FRESH_PREFIXES) or fn in ("copy.deepcopy",):
         return "fresh"
     if fn == "copy.copy":
@@ -186,15 +220,21 @@ def call_kind(c, local_callables=()):
         return "fresh" if not star_kw and (not cp or not _could_be_false(cp[0])) else "receiver"
     if m == "copy":
         return "copy"                     # a new array - or a new container holding the same items
+    if isinstance(base, ast.Name) and base.id in _BUILTIN_NAMES:
+        return "any"                      # dict.fromkeys(keys, x), list.__add__(a, b): the unbound method of a builtin type
+    if m in ("get", "pop", "setdefault") and (len(c.args) > 1 or c.keywords):
+        return "any"                      # d.get(k, x) hands back x when k is missing
     if m in VIEW_METHODS or m.startswith("__") and m.endswith("__") and m not in FRESH_METHODS:
         return "receiver"
     if m in FRESH_METHODS:
-        return "fresh"
-    if isinstance(base, ast.Name) and base.id[:1].isupper():
+        return "reduce" if m in _REDUCING_METHODS else "fresh"
+    if isinstance(base, ast.Name) and base.id[:1].isupper() and base.id not in local_callables:
         return "fresh"                    # Class.method(..): a constructor / class-level function of the repository
-    if isinstance(base, ast.Name) and base.id in ("itertools", "operator", "functools", "contextlib", "copy", "collections"):
+    if isinstance(base, ast.Name) and (base.id in ("itertools", "operator", "functools", "contextlib", "copy", "collections", "heapq", "bisect")
+                                       or base.id in MODULE_ALIASES):
         return "any"
-    return "fresh"
+    # a method no table knows: it may hand back its receiver (`x.conj()`, `x.conjugate()` for a real array ARE x), a view or an item of it
+    return "receiver"
 
 
 def roots2(e, al=None, local_callables=(), on_call=None, holds=None):
@@ -250,6 +290,8 @@ def roots2(e, al=None, local_callables=(), on_call=None, holds=None):
             # arithmetic on arrays / numbers gives a new object; `[x] * 1`, `[] + [x]`, `box + [x]` give a container of the same items
             if isinstance(x.op, (ast.Add, ast.Mult)) and any(isinstance(o, (ast.List, ast.Tuple, ast.Set, ast.Dict, ast.ListComp)) for o in (x.left, x.right)):
                 return set(), both(join([r(x.left), r(x.right)]))
+            if isinstance(x.op, (ast.Add, ast.Mult)):
+                return set(), join([r(x.left), r(x.right)])[1]           # `box * 1`, `box + box`: a new list of the same items
             return set(), set()
         if isinstance(x, ast.Name):
             return of(x.id)
@@ -285,7 +327,10 @@ def roots2(e, al=None, local_callables=(), on_call=None, holds=None):
             # a function / method of the repository: what ITS return value may be (effects.return_aliases of the reference tree)
             ent = None
             if isinstance(x.func, ast.Name) and x.func.id not in local_callables and x.func.id not in _BUILTIN_NAMES:
-                ent = repository_returns().get(x.func.id)
+                ent = repository_returns().get(IMPORT_ALIASES.get(x.func.id, x.func.id))
+            elif isinstance(x.func, ast.Attribute) and isinstance(x.func.value, ast.Name) and x.func.value.id in MODULE_ALIASES \
+                    and x.func.value.id not in local_callables and not (call_name(x) or "").startswith(DOTTED_FRESH_PREFIXES):
+                ent = repository_returns().get(x.func.attr)       # module.function(..)
             elif isinstance(x.func, ast.Attribute) and not (call_name(x) or "").startswith(("np.", "numpy.")) \
                     and x.func.attr not in VIEW_METHODS and x.func.attr != "astype" and x.func.attr != "copy":
                 ent = repository_returns().get("." + x.func.attr)
@@ -303,7 +348,16 @@ def roots2(e, al=None, local_callables=(), on_call=None, holds=None):
                 cn_ = x.func.id if isinstance(x.func, ast.Name) else x.func.attr if isinstance(x.func, ast.Attribute) else ""
                 if cn_.endswith(("Error", "Exception", "Warning")):
                     return set(), both(join([r(a) for a in every]))      # an exception carries its arguments
+                if _np_tail(call_name(x) or "") is not None and (call_name(x) or "").split(".")[-1] in _NP_OBJECT_MAKERS:
+                    # a new array; an object array (no dtype given, or dtype=object) keeps the ITEMS of the containers it was made from
+                    dt = [k.value for k in x.keywords if k.arg == "dtype"]
+                    if not dt or ast.unparse(dt[0]) in ("object", "'O'", "np.object_", "'object'"):
+                        ps_ = join([r(a) for a in every if not (dt and a is dt[0])])
+                        return set(), (both(ps_) if dt else ps_[1])
                 return set(), set()
+            if kind == "reduce":
+                p_ = r(x.func.value)
+                return set(p_[1]), set(p_[1])
             if kind == "collect":
                 return set(), both(join([r(a) for a in every]))
             if kind == "copy":
@@ -331,10 +385,10 @@ def roots2(e, al=None, local_callables=(), on_call=None, holds=None):
     return r(e)
 
 
-def roots(e, al=None, local_callables=(), on_call=None):
+def roots(e, al=None, local_callables=(), on_call=None, holds=None):
     """names (origins) whose objects the value of `e` may share storage with or hold (one set: for the flow-insensitive
     classes of `groups`, where holding an object and being it are not told apart)"""
-    s_, h_ = roots2(e, al, local_callables, on_call)
+    s_, h_ = roots2(e, al, local_callables, on_call, holds)
     return s_ | h_
 
 
@@ -507,7 +561,9 @@ def groups(fn, extra_stmts=()):
         else:
             # storing an object into a container / attribute makes the container hold it: `box[0] = x`, `obj.a = x`
             # (a store with a multi-dimensional index - `table[0, 1:] = v` - is NumPy's: the values are copied in)
-            if not (isinstance(target, ast.Subscript) and isinstance(target.slice, ast.Tuple)):
+            # (a dict / an object array with a plain tuple key `d[a, b] = v` keeps the object)
+            if not (isinstance(target, ast.Subscript) and isinstance(target.slice, ast.Tuple)
+                    and any(isinstance(e_, ast.Slice) or isinstance(e_, ast.Constant) and e_.value is Ellipsis for e_ in target.slice.elts)):
                 hold(base_name(target), s_ | h_)
 
     def bind_items(target, s_, h_):
@@ -525,7 +581,7 @@ def groups(fn, extra_stmts=()):
 
     changed = [True]
     rounds = 0
-    while changed[0] and rounds < 4:
+    while changed[0] and rounds < 12:
         changed[0] = False
         rounds += 1
         before = {find(a) for a in parent}, len(parent)
@@ -554,12 +610,30 @@ def groups(fn, extra_stmts=()):
                         for a_ in list(r_.exc.args) + [k.value for k in r_.exc.keywords]:
                             s_, h_ = r2(a_)
                             hold(n.name, s_ | h_)
+                    elif isinstance(r_, ast.Raise) and r_.exc is not None:
+                        # `raise e`: the handler's name may be that very object
+                        s_, h_ = r2(r_.exc)
+                        for o in s_:
+                            union(n.name, o)
+                        hold(n.name, h_)
+                    if isinstance(r_, ast.Raise) and r_.cause is not None:
+                        s_, h_ = r2(r_.cause)
+                        hold(n.name, s_ | h_)
             elif isinstance(n, ast.Call) and isinstance(n.func, ast.Attribute) and n.func.attr in _ADDERS:
                 items = set()
                 for a_ in list(n.args) + [k.value for k in n.keywords]:
                     s_, h_ = r2(a_)
                     items |= s_ | h_
                 hold(base_name(n.func.value), items)
+            elif isinstance(n, ast.Call) and isinstance(n.func, ast.Attribute) and isinstance(n.func.value, ast.Name) and len(n.args) >= 2 \
+                    and (n.func.value.id in _BUILTIN_NAMES and n.func.attr in _ADDERS
+                         or n.func.value.id in ("heapq", "bisect", "operator", "collections", "itertools", "functools")) and not reads_only(n):
+                # `list.append(box, x)`, `heapq.heappush(box, x)`, `operator.setitem(box, 0, x)`: the first argument takes the others in
+                items = set()
+                for a_ in list(n.args[1:]) + [k.value for k in n.keywords]:
+                    s_, h_ = r2(a_)
+                    items |= s_ | h_
+                hold(base_name(n.args[0]), items)
             elif isinstance(n, (ast.FunctionDef, ast.AsyncFunctionDef)) and n is not fn:
                 for x in ast.walk(n):
                     if isinstance(x, ast.Name):
@@ -632,6 +706,25 @@ def local_callable_names(fn):
             for t in n.targets:
                 if isinstance(t, ast.Name):
                     out[t.id] = {x.id for x in ast.walk(n.value.body) if isinstance(x, ast.Name)} - own
+    # a local bound to anything else and then called (`g = x.view`, `g = np.asarray`, `f = _helper`): what it hands back is unknown
+    called = {n.func.id for n in ast.walk(fn) if isinstance(n, ast.Call) and isinstance(n.func, ast.Name)}
+    for n in ast.walk(fn):
+        tgts = []
+        if isinstance(n, ast.Assign) and not isinstance(n.value, ast.Lambda):
+            tgts = [(t, n.value) for t in n.targets]
+        elif isinstance(n, (ast.AnnAssign, ast.NamedExpr)) and n.value is not None:
+            tgts = [(n.target, n.value)]
+        elif isinstance(n, (ast.For, ast.comprehension)):
+            tgts = [(n.target, n.iter)]
+        elif isinstance(n, ast.withitem) and n.optional_vars is not None:
+            tgts = [(n.optional_vars, n.context_expr)]
+        for t, v in tgts:
+            if isinstance(v, ast.Call) and isinstance(v.func, ast.Name) and v.func.id == "type" and len(v.args) == 1 and not v.keywords \
+                    or isinstance(v, ast.Call) and isinstance(v.func, ast.Attribute) and v.func.attr.endswith("_class") and not v.args:
+                continue          # `Category = type(atom_site)`, `Column = Category.subcomponent_class()`: a class - calling it makes a new object
+            for nm in ast.walk(t):
+                if isinstance(nm, ast.Name) and nm.id in called:
+                    out.setdefault(nm.id, set()).update(x.id for x in ast.walk(v) if isinstance(x, ast.Name))
     out.pop("self", None)
     out.pop("cls", None)
     return out
